@@ -203,7 +203,7 @@ static int do_action(const char *act)
     case 'C': if(n == 1) do_cancel(v[0]); break;
     case 'E': if(n == 1) { errno = (int)v[0]; return 1; } break;
     case 'R': if(n == 1 && valid_sig(v[0])) raise((int)v[0]); break;
-    case 'X': if(n == 2 && v[0] >= PID0 && v[0] < PID0 + NPID) { PR[v[0] - PID0].exited = 1; PR[v[0] - PID0].status = (int)v[1]; } break;
+    case 'X': if(n == 2 && v[0] >= PID0 && v[0] < PID0 + NPID) { if(!PR[v[0] - PID0].exited) { PR[v[0] - PID0].exited = 1; PR[v[0] - PID0].status = (int)v[1]; } } break;
   }
   return 0;
 }
@@ -347,7 +347,8 @@ static void engine_op(int argc, char **argv)
   else if(strcmp(op, "raise") == 0 && argc == 2 && valid_sig(v[0])) { raise((int)v[0]); obs("ok "); }
   else if(strcmp(op, "inpoll") == 0 && argc == 2 && valid_sig(v[0]) && ninpoll < 8) { inpoll[ninpoll++] = (int)v[0]; obs("ok "); }
   else if(strcmp(op, "exit") == 0 && argc == 3 && v[0] >= PID0 && v[0] < PID0 + NPID) {
-    PR[v[0] - PID0].exited = 1; PR[v[0] - PID0].status = (int)v[1]; obs("ok ");
+    if(!PR[v[0] - PID0].exited) { PR[v[0] - PID0].exited = 1; PR[v[0] - PID0].status = (int)v[1]; }
+    obs("ok ");
   }
   else if(strcmp(op, "tick") == 0 && argc == 1)     { tickit_tick(T, TICKIT_RUN_NOHANG | TICKIT_RUN_NOSETUP); obs("ok "); }
   else if(strcmp(op, "tickhang") == 0 && argc == 1) { tickit_tick(T, TICKIT_RUN_NOSETUP); obs("ok "); }
